@@ -752,3 +752,57 @@ Proof.
   - cbn. auto.
   - unfold tag_byte. lia.
 Qed.
+
+(* ---- the sending side: SendCTCP / SendCTCPReply -------------------------- *)
+
+Theorem send_panic_iff target k msg :
+  (send_ctcp target k msg = Panic <-> k = []) /\ (send_ctcp_reply target k msg = Panic <-> k = []).
+Proof.
+  unfold send_ctcp, send_ctcp_reply. split; (split; [|intros ->; reflexivity]);
+    (destruct (encode_ctcp_raw k msg) eqn:E; [intros _; apply encode_empty_iff in E; exact E | discriminate]).
+Qed.
+
+Lemma send_ctcp_ok target k msg : k <> [] ->
+  send_ctcp target k msg = Ok (message target (encode_ctcp_raw k msg)).
+Proof.
+  intros Hk. unfold send_ctcp. destruct (encode_ctcp_raw k msg) eqn:E; [|reflexivity].
+  apply encode_empty_iff in E. congruence.
+Qed.
+
+(* what SendCTCP / SendCTCPReply hand to Client.Send is, for the receiver (who sees it with
+   the sender as source), the CTCP request / reply with the same type and text *)
+Theorem send_roundtrip target k msg src : ctcp_tag k ->
+  exists q r, send_ctcp target k msg = Ok q /\ send_ctcp_reply target k msg = Ok r /\
+    decode_ctcp (mk_event src (ev_command q) (ev_params q)) = Ok (Some (mk_ctcp src k msg false)) /\
+    decode_ctcp (mk_event src (ev_command r) (ev_params r)) = Ok (Some (mk_ctcp src k msg true)).
+Proof.
+  intros (Hne & Ht). eexists _, _.
+  split; [apply send_ctcp_ok; exact Hne|]. split; [apply send_reply_ok; exact Hne|].
+  unfold message, notice. cbn [ev_command ev_params]. split.
+  - apply (roundtrip k msg PRIVMSG src target Hne Ht). left. reflexivity.
+  - apply (roundtrip k msg NOTICE src target Hne Ht). right. reflexivity.
+Qed.
+
+(* the encoder does not validate the type: a type without SPACE that is not a tag (lower
+   case, punctuation) is sent all the same and is NOT a CTCP message for the receiver *)
+Theorem send_bad_type target k msg src q : ~ In 32 k -> ~ Forall tag_byte k ->
+  send_ctcp target k msg = Ok q ->
+  decode_ctcp (mk_event src (ev_command q) (ev_params q)) = Ok None.
+Proof.
+  intros Hns Hbad Hs. assert (Hne : k <> []) by (intros ->; apply Hbad; constructor).
+  rewrite send_ctcp_ok in Hs by exact Hne. injection Hs as <-.
+  unfold message. cbn [ev_command ev_params].
+  apply not_ctcp_exact.
+  assert (Hb : exists b, In b k /\ ~ tag_byte b).
+  { apply forallb_tag_false. destruct (forallb tag_byte_ok k) eqn:E; [|reflexivity].
+    apply forallb_tag in E. contradiction. }
+  destruct Hb as (b & Hin & Hnt).
+  apply (nc_bad_tag _ target k msg b); try assumption. cbn [ev_params].
+  unfold encode_ctcp_raw, ctcp_delim, event_space. destruct k as [|x k']; [congruence|].
+  destruct msg as [|y m]; [left | right]; reflexivity.
+Qed.
+
+Example send_bad_type_sat :
+  exists q, send_ctcp (bs "nick") (bs "version") [] = Ok q /\
+    decode_ctcp (mk_event (Some (bs "me")) (ev_command q) (ev_params q)) = Ok None.
+Proof. eexists. split; vm_compute; reflexivity. Qed.
